@@ -314,7 +314,8 @@ Proof.
   cbn [merge_def fd_type fd_index]. destruct st as [ty|]; [|discriminate].
   intros H. apply orb_true_iff in H. destruct H as [H|H].
   - apply negb_true_iff in H. unfold type_is. cbn [ostr_eqb]. rewrite H. reflexivity.
-  - destruct si as [i|]; [reflexivity|]. destruct pi; [discriminate|reflexivity].
+  - destruct si as [i|]; [reflexivity|]. destruct pi as [i|]; [|reflexivity].
+    apply negb_true_iff in H. cbn [fd_index]. rewrite H. reflexivity.
 Qed.
 
 (* ================================================================ spellings of field specifications *)
@@ -742,4 +743,861 @@ Proof.
     assert (Hg' : sub_self_described p d = true).
     { unfold subfield_ok, subfield_holder in Hg. rewrite Ha, rev_unit, Hp in Hg. exact Hg. }
     rewrite (merge_not_analyzed _ _ Hg'). apply leaf_not_analyzed. apply leaf_not_container. exact Hl.
+Qed.
+
+(* ================================================================ what nested_fields() computes *)
+(* ---- dotted strings *)
+Lemma dotted_cons k p : p <> [] -> dotted (k :: p) = k ++ c_dot :: dotted p.
+Proof. unfold dotted. destruct p; [congruence|]. reflexivity. Qed.
+
+Lemma dotted_single k : dotted [k] = k. Proof. reflexivity. Qed.
+
+Lemma dotted_app a b : a <> [] -> b <> [] -> dotted (a ++ b) = dotted a ++ c_dot :: dotted b.
+Proof.
+  induction a as [|x [|y a'] IH]; intros Ha Hb; [congruence| |].
+  - cbn [app]. rewrite dotted_cons by exact Hb. reflexivity.
+  - change ((x :: y :: a') ++ b) with (x :: ((y :: a') ++ b)).
+    rewrite dotted_cons by discriminate. rewrite IH by (try discriminate; exact Hb).
+    rewrite (dotted_cons x (y :: a')) by discriminate. rewrite <- app_assoc. reflexivity.
+Qed.
+
+(* a is a strict dotted prefix of b *)
+Definition sprefix (a b : str) : Prop := exists c, b = a ++ c_dot :: c.
+
+(* ---- the leaves of a dict of dicts, as dotted strings (what flatten yields) *)
+Inductive lname : list (str * spec) -> str -> Prop :=
+| ln_leaf T k v : In (k, v) T -> sd_kv v = [] -> lname T k
+| ln_sub T k v x : In (k, v) T -> lname (sd_kv v) x -> lname T (k ++ c_dot :: x).
+
+Lemma lname_nonempty T x : lname T x -> T <> [].
+Proof. intros H. inversion H as [? ? ? Hin|? ? ? ? Hin]; subst; intros ->; destruct Hin. Qed.
+
+(* ---- insertion-ordered dict operations *)
+Lemma obj_set_in {A} k (v : A) T k' v' :
+  In (k', v') (obj_set k v T) -> (k', v') = (k, v) \/ In (k', v') T.
+Proof.
+  induction T as [|[k0 v0] T IH]; cbn [obj_set].
+  - intros [H|[]]. left. symmetry. exact H.
+  - destruct (str_eqb k k0) eqn:E.
+    + apply str_eqb_eq in E. subst k0. intros [H|H]; [left; symmetry; exact H|right; right; exact H].
+    + intros [H|H]; [right; left; exact H|]. destruct (IH H) as [H'|H']; [left; exact H'|right; right; exact H'].
+Qed.
+
+Lemma obj_get_set {A} k (v : A) T : obj_get k (obj_set k v T) = Some v.
+Proof.
+  induction T as [|[k0 v0] T IH]; cbn [obj_set obj_get].
+  - rewrite str_eqb_refl. reflexivity.
+  - destruct (str_eqb k k0) eqn:E; cbn [obj_get]; rewrite E; [reflexivity|exact IH].
+Qed.
+
+Lemma obj_set_has {A} k (v : A) T : In (k, v) (obj_set k v T).
+Proof. apply obj_get_In. apply obj_get_set. Qed.
+
+Lemma obj_set_keep {A} k (v : A) T k' v' :
+  In (k', v') T -> (k' <> k \/ obj_get k T <> Some v') -> In (k', v') (obj_set k v T).
+Proof.
+  induction T as [|[k0 v0] T IH]; intros Hin Hne; [destruct Hin|]. cbn [obj_set obj_get] in *.
+  destruct (str_eqb k k0) eqn:E.
+  - apply str_eqb_eq in E. subst k0. destruct Hin as [Heq|Hin]; [|right; exact Hin].
+    inversion Heq; subst. destruct Hne as [Hne|Hne]; congruence.
+  - destruct Hin as [Heq|Hin]; [left; exact Heq|]. right. apply IH; assumption.
+Qed.
+
+Lemma obj_set_nonempty {A} k (v : A) T : obj_set k v T <> [].
+Proof. destruct T as [|[k0 v0] T]; cbn; [discriminate|]. destruct (str_eqb k k0); discriminate. Qed.
+
+Lemma nf_insert_nonempty names : forall T cum f, nf_insert T cum names f <> [].
+Proof.
+  induction names as [|n ns IH]; intros T cum f; cbn [nf_insert].
+  - destruct cum; apply obj_set_nonempty.
+  - destruct (obj_get _ T); [apply obj_set_nonempty|apply IH].
+Qed.
+
+Definition getkv (k : str) (T : list (str * spec)) : list (str * spec) :=
+  match obj_get k T with Some s => sd_kv s | None => [] end.
+
+(* ---- soundness of one insertion: nothing but the new name appears *)
+Lemma lname_set_leaf T f x :
+  lname (obj_set f (SDict []) T) x -> lname T x \/ x = f.
+Proof.
+  intros H. inversion H as [T' k v Hin Hv|T' k v y Hin Hy]; subst.
+  - apply obj_set_in in Hin. destruct Hin as [Heq|Hin]; [inversion Heq; subst; right; reflexivity|].
+    left. eapply ln_leaf; eassumption.
+  - apply obj_set_in in Hin. destruct Hin as [Heq|Hin].
+    + inversion Heq; subst. cbn in Hy. apply lname_nonempty in Hy. congruence.
+    + left. eapply ln_sub; eassumption.
+Qed.
+
+Lemma lname_of_get T key s y : obj_get key T = Some s -> lname (sd_kv s) y -> lname T (key ++ c_dot :: y).
+Proof. intros Hg Hy. eapply ln_sub; [apply obj_get_In; exact Hg|exact Hy]. Qed.
+
+Lemma nf_insert_sound names : forall T cum f x,
+  lname (nf_insert T cum names f) x -> lname T x \/ x = dotted (cum ++ names ++ [f]).
+Proof.
+  induction names as [|n ns IH]; intros T cum f x H; cbn [nf_insert] in H.
+  - destruct cum as [|c cs].
+    + apply lname_set_leaf in H. exact H.
+    + remember (dotted (c :: cs)) as key eqn:Ek.
+      assert (Hnew : dotted ((c :: cs) ++ [] ++ [f]) = key ++ c_dot :: f).
+      { change ((c :: cs) ++ [] ++ [f]) with ((c :: cs) ++ [f]). rewrite dotted_app by discriminate.
+        rewrite <- Ek. reflexivity. }
+      rewrite Hnew. fold (getkv key T) in H.
+      inversion H as [T' k v Hin Hv|T' k v y Hin Hy]; subst T' x.
+      * apply obj_set_in in Hin. destruct Hin as [Heq|Hin].
+        -- inversion Heq; subst v. cbn [sd_kv] in Hv. exfalso. exact (obj_set_nonempty _ _ _ Hv).
+        -- left. eapply ln_leaf; eassumption.
+      * apply obj_set_in in Hin. destruct Hin as [Heq|Hin].
+        -- inversion Heq; subst k v. cbn [sd_kv] in Hy. apply lname_set_leaf in Hy.
+           destruct Hy as [Hy| ->]; [|right; reflexivity]. left.
+           unfold getkv in Hy. destruct (obj_get key T) as [s|] eqn:Eg.
+           ++ eapply lname_of_get; eassumption.
+           ++ apply lname_nonempty in Hy. congruence.
+        -- left. eapply ln_sub; eassumption.
+  - remember (dotted (cum ++ [n])) as key eqn:Ek.
+    assert (Hnew : dotted (cum ++ (n :: ns) ++ [f]) = key ++ c_dot :: dotted (ns ++ [f])).
+    { change (cum ++ (n :: ns) ++ [f]) with (cum ++ [n] ++ (ns ++ [f])). rewrite app_assoc.
+      rewrite dotted_app; [rewrite <- Ek; reflexivity|destruct cum; discriminate|destruct ns; discriminate]. }
+    destruct (obj_get key T) as [s|] eqn:Eg.
+    + rewrite Hnew. inversion H as [T' k v Hin Hv|T' k v y Hin Hy]; subst T' x.
+      * apply obj_set_in in Hin. destruct Hin as [Heq|Hin].
+        -- inversion Heq; subst v. cbn [sd_kv] in Hv. exfalso. exact (nf_insert_nonempty _ _ _ _ Hv).
+        -- left. eapply ln_leaf; eassumption.
+      * apply obj_set_in in Hin. destruct Hin as [Heq|Hin].
+        -- inversion Heq; subst k v. cbn [sd_kv] in Hy. apply IH in Hy. cbn [app] in Hy.
+           destruct Hy as [Hy| ->]; [|right; reflexivity]. left. eapply lname_of_get; eassumption.
+        -- left. eapply ln_sub; eassumption.
+    + apply IH in H. rewrite <- app_assoc in H. exact H.
+Qed.
+
+(* ---- completeness of one insertion: the new name is a leaf right after *)
+Lemma nf_insert_complete names : forall T cum f,
+  lname (nf_insert T cum names f) (dotted (cum ++ names ++ [f])).
+Proof.
+  induction names as [|n ns IH]; intros T cum f; cbn [nf_insert].
+  - destruct cum as [|c cs].
+    + cbn [app]. rewrite dotted_single. eapply ln_leaf; [apply obj_set_has|reflexivity].
+    + change ((c :: cs) ++ [] ++ [f]) with ((c :: cs) ++ [f]). rewrite dotted_app by discriminate.
+      rewrite dotted_single. eapply ln_sub; [apply obj_set_has|]. cbn [sd_kv].
+      eapply ln_leaf; [apply obj_set_has|reflexivity].
+  - assert (Hnew : dotted (cum ++ (n :: ns) ++ [f]) = dotted (cum ++ [n]) ++ c_dot :: dotted (ns ++ [f])).
+    { change (cum ++ (n :: ns) ++ [f]) with (cum ++ [n] ++ (ns ++ [f])). rewrite app_assoc.
+      apply dotted_app; [destruct cum; discriminate|destruct ns; discriminate]. }
+    destruct (obj_get (dotted (cum ++ [n])) T) as [s|] eqn:Eg.
+    + rewrite Hnew. eapply ln_sub; [apply obj_set_has|]. cbn [sd_kv]. apply (IH (sd_kv s) [] f).
+    + specialize (IH T (cum ++ [n]) f). rewrite <- app_assoc in IH. exact IH.
+Qed.
+
+(* ---- preservation: an insertion removes a leaf only if it passes through it or resets it *)
+Lemma in_set_cases {A} key (v' : A) T k v :
+  In (k, v) T -> k = key -> obj_get key T = Some v \/ In (k, v) (obj_set key v' T).
+Proof.
+  intros Hin ->. induction T as [|[k0 v0] T IH]; [destruct Hin|]. cbn [obj_get obj_set].
+  destruct (str_eqb key k0) eqn:E.
+  - apply str_eqb_eq in E. subst k0. destruct Hin as [Heq|Hin]; [inversion Heq; subst; left; reflexivity|].
+    right. right. exact Hin.
+  - destruct Hin as [Heq|Hin].
+    + inversion Heq; subst. rewrite str_eqb_refl in E. discriminate E.
+    + destruct (IH Hin) as [H|H]; [left; exact H|right; right; exact H].
+Qed.
+
+Lemma str_dec (a b : str) : {a = b} + {a <> b}.
+Proof. apply list_eq_dec. apply N.eq_dec. Qed.
+
+Lemma lname_set_leaf_keep T f x :
+  lname T x -> x <> f -> ~ sprefix f x -> lname (obj_set f (SDict []) T) x.
+Proof.
+  intros H Hne Hnp. inversion H as [T' k v Hin Hv|T' k v y Hin Hy]; subst T' x.
+  - destruct (str_dec k f) as [->|Hk]; [congruence|].
+    eapply ln_leaf; [apply obj_set_keep; [exact Hin|left; exact Hk]|exact Hv].
+  - destruct (str_dec k f) as [->|Hk]; [exfalso; apply Hnp; exists y; reflexivity|].
+    eapply ln_sub; [apply obj_set_keep; [exact Hin|left; exact Hk]|exact Hy].
+Qed.
+
+Lemma sprefix_under key y z : sprefix y z -> sprefix (key ++ c_dot :: y) (key ++ c_dot :: z).
+Proof. intros [c ->]. exists c. exact (app_assoc key (c_dot :: y) (c_dot :: c)). Qed.
+
+Lemma under_inj key (y z : str) : key ++ c_dot :: y = key ++ c_dot :: z -> y = z.
+Proof. intros H. apply app_inv_head in H. injection H as H. exact H. Qed.
+
+Lemma nf_insert_keep names : forall T cum f x,
+  lname T x ->
+  x <> dotted (cum ++ names ++ [f]) ->
+  ~ sprefix x (dotted (cum ++ names ++ [f])) -> ~ sprefix (dotted (cum ++ names ++ [f])) x ->
+  lname (nf_insert T cum names f) x.
+Proof.
+  induction names as [|n ns IH]; intros T cum f x H Hne Hp1 Hp2; cbn [nf_insert].
+  - destruct cum as [|c cs].
+    + cbn [app] in *. rewrite dotted_single in *. apply lname_set_leaf_keep; assumption.
+    + remember (dotted (c :: cs)) as key eqn:Ek.
+      assert (Hnew : dotted ((c :: cs) ++ [] ++ [f]) = key ++ c_dot :: f).
+      { change ((c :: cs) ++ [] ++ [f]) with ((c :: cs) ++ [f]). rewrite dotted_app by discriminate.
+        rewrite <- Ek. reflexivity. }
+      rewrite Hnew in *. clear Hnew.
+      inversion H as [T' k v Hin Hv|T' k v y Hin Hy]; subst T' x.
+      * destruct (str_dec k key) as [->|Hk]; [exfalso; apply Hp1; exists f; reflexivity|].
+        eapply ln_leaf; [apply obj_set_keep; [exact Hin|left; exact Hk]|exact Hv].
+      * destruct (str_dec k key) as [->|Hk];
+          [|eapply ln_sub; [apply obj_set_keep; [exact Hin|left; exact Hk]|exact Hy]].
+        destruct (in_set_cases key (SDict (obj_set f (SDict [])
+                     match obj_get key T with Some s => sd_kv s | None => [] end)) T key v Hin eq_refl)
+          as [Hg|Hkeep]; [|eapply ln_sub; [exact Hkeep|exact Hy]].
+        rewrite Hg. eapply ln_sub; [apply obj_set_has|]. cbn [sd_kv]. apply lname_set_leaf_keep.
+        -- exact Hy.
+        -- intros ->. apply Hne. reflexivity.
+        -- intros Hs. apply Hp2. apply sprefix_under. exact Hs.
+  - remember (dotted (cum ++ [n])) as key eqn:Ek.
+    assert (Hnew : dotted (cum ++ (n :: ns) ++ [f]) = key ++ c_dot :: dotted (ns ++ [f])).
+    { change (cum ++ (n :: ns) ++ [f]) with (cum ++ [n] ++ (ns ++ [f])). rewrite app_assoc.
+      rewrite dotted_app; [rewrite <- Ek; reflexivity|destruct cum; discriminate|destruct ns; discriminate]. }
+    destruct (obj_get key T) as [s|] eqn:Eg.
+    + rewrite Hnew in *. clear Hnew.
+      inversion H as [T' k v Hin Hv|T' k v y Hin Hy]; subst T' x.
+      * destruct (str_dec k key) as [->|Hk]; [exfalso; apply Hp1; eexists; reflexivity|].
+        eapply ln_leaf; [apply obj_set_keep; [exact Hin|left; exact Hk]|exact Hv].
+      * destruct (str_dec k key) as [->|Hk];
+          [|eapply ln_sub; [apply obj_set_keep; [exact Hin|left; exact Hk]|exact Hy]].
+        destruct (in_set_cases key (SDict (nf_insert (sd_kv s) [] ns f)) T key v Hin eq_refl)
+          as [Hg|Hkeep]; [|eapply ln_sub; [exact Hkeep|exact Hy]].
+        rewrite Eg in Hg. injection Hg as ->.
+        eapply ln_sub; [apply obj_set_has|]. cbn [sd_kv]. apply IH.
+        -- exact Hy.
+        -- cbn [app]. intros ->. apply Hne. reflexivity.
+        -- cbn [app]. intros Hs. apply Hp1. apply sprefix_under. exact Hs.
+        -- cbn [app]. intros Hs. apply Hp2. apply sprefix_under. exact Hs.
+    + apply IH; try rewrite <- app_assoc; assumption.
+Qed.
+
+(* ---- the whole loop of nested_fields *)
+Definition relevant (e : entry) : bool := type_is (parent_type (e_parents e)) k_nested.
+
+Lemma nf_step_relevant T e : relevant e = true -> nf_step T e = nf_insert T [] (map fst (e_parents e)) (e_name e).
+Proof. unfold nf_step, relevant. intros ->. reflexivity. Qed.
+Lemma nf_step_irrelevant T e : relevant e = false -> nf_step T e = T.
+Proof. unfold nf_step, relevant. intros ->. reflexivity. Qed.
+
+Lemma fold_sound E : forall T x,
+  lname (fold_left nf_step E T) x ->
+  lname T x \/ exists e, In e E /\ relevant e = true /\ x = e_dot e.
+Proof.
+  induction E as [|e E IH]; intros T x H; [left; exact H|]. cbn [fold_left] in H.
+  apply IH in H. destruct H as [H|[e' [Hin [Hr Hx]]]].
+  - destruct (relevant e) eqn:Er.
+    + rewrite (nf_step_relevant _ _ Er) in H. apply nf_insert_sound in H. destruct H as [H|H]; [left; exact H|].
+      right. exists e. split; [left; reflexivity|]. split; [exact Er|exact H].
+    + rewrite (nf_step_irrelevant _ _ Er) in H. left. exact H.
+  - right. exists e'. split; [right; exact Hin|]. split; assumption.
+Qed.
+
+Lemma fold_keep E : forall T x,
+  lname T x ->
+  (forall e, In e E -> relevant e = true -> ~ sprefix x (e_dot e) /\ ~ sprefix (e_dot e) x) ->
+  lname (fold_left nf_step E T) x.
+Proof.
+  induction E as [|e E IH]; intros T x H Hs; [exact H|]. cbn [fold_left]. apply IH.
+  - destruct (relevant e) eqn:Er; [|rewrite (nf_step_irrelevant _ _ Er); exact H].
+    rewrite (nf_step_relevant _ _ Er). destruct (str_dec x (e_dot e)) as [->|Hne].
+    + apply (nf_insert_complete (map fst (e_parents e)) T [] (e_name e)).
+    + destruct (Hs e (or_introl eq_refl) Er) as [H1 H2]. apply nf_insert_keep; assumption.
+  - intros e' Hin. apply Hs. right. exact Hin.
+Qed.
+
+Lemma fold_complete E1 e E2 T :
+  relevant e = true ->
+  (forall e', In e' E2 -> relevant e' = true ->
+              ~ sprefix (e_dot e) (e_dot e') /\ ~ sprefix (e_dot e') (e_dot e)) ->
+  lname (fold_left nf_step (E1 ++ e :: E2) T) (e_dot e).
+Proof.
+  intros Er Hs. rewrite fold_left_app. cbn [fold_left]. apply fold_keep; [|exact Hs].
+  rewrite (nf_step_relevant _ _ Er). apply (nf_insert_complete (map fst (e_parents e)) _ [] (e_name e)).
+Qed.
+
+(* ---- dicts of dicts, and the link with the denotation of specifications *)
+Inductive donly : spec -> Prop :=
+| donly_intro kv : (forall k v, In (k, v) kv -> donly v) -> donly (SDict kv).
+
+Lemma donly_kv s : donly s -> s = SDict (sd_kv s).
+Proof. intros H. inversion H. reflexivity. Qed.
+
+Lemma donly_in kv k v : donly (SDict kv) -> In (k, v) kv -> donly v.
+Proof. intros H Hin. inversion H as [kv' Hall]; subst. eapply Hall. exact Hin. Qed.
+
+Lemma donly_set k v T : donly v -> donly (SDict T) -> donly (SDict (obj_set k v T)).
+Proof.
+  intros Hv HT. constructor. intros k' v' Hin. apply obj_set_in in Hin.
+  destruct Hin as [Heq|Hin]; [inversion Heq; subst; exact Hv|]. eapply donly_in; eassumption.
+Qed.
+
+Lemma donly_empty : donly (SDict []). Proof. constructor. intros k v []. Qed.
+
+Lemma donly_get key T s : donly (SDict T) -> obj_get key T = Some s -> donly (SDict (sd_kv s)).
+Proof.
+  intros HT Hg. apply obj_get_In in Hg. pose proof (donly_in _ _ _ HT Hg) as Hs.
+  rewrite <- (donly_kv _ Hs). exact Hs.
+Qed.
+
+Lemma nf_insert_donly names : forall T cum f, donly (SDict T) -> donly (SDict (nf_insert T cum names f)).
+Proof.
+  induction names as [|n ns IH]; intros T cum f HT; cbn [nf_insert].
+  - destruct cum as [|c cs].
+    + apply donly_set; [apply donly_empty|exact HT].
+    + apply donly_set; [|exact HT]. apply donly_set; [apply donly_empty|].
+      destruct (obj_get _ T) as [s|] eqn:Eg; [eapply donly_get; eassumption|apply donly_empty].
+  - destruct (obj_get _ T) as [s|] eqn:Eg.
+    + apply donly_set; [|exact HT]. apply IH. eapply donly_get; eassumption.
+    + apply IH. exact HT.
+Qed.
+
+Lemma fold_donly E : forall T, donly (SDict T) -> donly (SDict (fold_left nf_step E T)).
+Proof.
+  induction E as [|e E IH]; intros T HT; [exact HT|]. cbn [fold_left]. apply IH.
+  unfold nf_step. destruct (type_is _ _); [apply nf_insert_donly|]; exact HT.
+Qed.
+
+Lemma denotes_nonempty s p : denotes s p -> p <> [].
+Proof. intros H. inversion H; discriminate. Qed.
+
+Lemma denotes_lname s p : denotes s p -> donly s -> lname (sd_kv s) (dotted p).
+Proof.
+  induction 1 as [l k Hin|kv k v Hin Hfa|kv k v p Hin Hfa Hden IH]; intros Hd.
+  - inversion Hd.
+  - cbn [sd_kv]. rewrite dotted_single. eapply ln_leaf; [exact Hin|].
+    pose proof (donly_in _ _ _ Hd Hin) as Hv. rewrite (donly_kv _ Hv) in Hfa. cbn in Hfa.
+    destruct (sd_kv v); [reflexivity|discriminate Hfa].
+  - cbn [sd_kv]. rewrite dotted_cons by (eapply denotes_nonempty; exact Hden).
+    eapply ln_sub; [exact Hin|]. apply IH. eapply donly_in; eassumption.
+Qed.
+
+Lemma lname_denotes T x : lname T x -> donly (SDict T) -> exists p, denotes (SDict T) p /\ dotted p = x.
+Proof.
+  induction 1 as [T k v Hin Hv|T k v y Hin Hy IH]; intros Hd.
+  - exists [k]. split; [|reflexivity]. eapply den_leaf; [exact Hin|].
+    pose proof (donly_in _ _ _ Hd Hin) as Hdv. rewrite (donly_kv _ Hdv), Hv. reflexivity.
+  - pose proof (donly_in _ _ _ Hd Hin) as Hdv.
+    assert (Hdv' : donly (SDict (sd_kv v))) by (rewrite <- (donly_kv _ Hdv); exact Hdv).
+    destruct (IH Hdv') as [p [Hp Hx]]. exists (k :: p). split.
+    + eapply den_sub; [exact Hin| |rewrite (donly_kv _ Hdv); exact Hp].
+      rewrite (donly_kv _ Hdv). apply lname_nonempty in Hy. destruct (sd_kv v); [congruence|reflexivity].
+    + rewrite dotted_cons by (eapply denotes_nonempty; exact Hp). rewrite Hx. reflexivity.
+Qed.
+
+Lemma names_lname T x : donly (SDict T) -> (names (SDict T) x <-> lname T x).
+Proof.
+  intros Hd. split.
+  - intros [p [Hp <-]]. exact (denotes_lname _ _ Hp Hd).
+  - intros H. apply lname_denotes; assumption.
+Qed.
+
+(* ---- s.rsplit(".", 1)[0] of a dotted name whose last component has no dot *)
+Lemma split_on_nonempty c s : split_on c s <> [].
+Proof.
+  induction s as [|x s IH]; cbn [split_on]; [discriminate|].
+  destruct (split_on c s); [discriminate|]. destruct (N.eqb x c); discriminate.
+Qed.
+
+Lemma split_on_app c a b : split_on c (a ++ c :: b) = split_on c a ++ split_on c b.
+Proof.
+  induction a as [|y a IH].
+  - cbn [app split_on]. rewrite N.eqb_refl. destruct (split_on c b) eqn:E; [|reflexivity].
+    exfalso. exact (split_on_nonempty _ _ E).
+  - cbn [app split_on]. rewrite IH. destruct (split_on c a) as [|w ws] eqn:E.
+    + exfalso. exact (split_on_nonempty _ _ E).
+    + cbn [app]. destruct (N.eqb y c); reflexivity.
+Qed.
+
+Lemma join_split c s : join [c] (split_on c s) = s.
+Proof.
+  induction s as [|x s IH]; [reflexivity|]. cbn [split_on].
+  destruct (split_on c s) as [|w ws] eqn:E; [exfalso; exact (split_on_nonempty _ _ E)|].
+  destruct (N.eqb x c) eqn:Ex.
+  - apply N.eqb_eq in Ex. subst x. change (join [c] ([] :: w :: ws)) with (c :: join [c] (w :: ws)).
+    rewrite IH. reflexivity.
+  - destruct ws as [|w' ws'].
+    + cbn [join] in *. rewrite IH. reflexivity.
+    + cbn [join] in *. rewrite <- IH. reflexivity.
+Qed.
+
+Lemma rsplit1_head_snoc a f : nodot f = true -> rsplit1_head c_dot (a ++ c_dot :: f) = a.
+Proof.
+  intros Hf. unfold rsplit1_head. rewrite split_on_app, (split_nodot _ Hf), rev_unit.
+  destruct (rev (split_on c_dot a)) as [|r rs] eqn:E.
+  - exfalso. apply (split_on_nonempty c_dot a). rewrite <- (rev_involutive (split_on c_dot a)), E. reflexivity.
+  - rewrite <- E, rev_involutive. apply join_split.
+Qed.
+
+(* ---- the builder's nested prefix set for query_builder_options() *)
+Definition nested_prefix_set (s : schema) : list str := ev_nested_prefixes (mk_env (options s)).
+Definition relevant_entries (s : schema) : list entry := filter relevant (iter_fields s false).
+
+Lemma relevant_parents e : relevant e = true -> e_parents e <> [].
+Proof. unfold relevant, parent_type. destruct (e_parents e); [discriminate|discriminate]. Qed.
+
+Definition parent_str (e : entry) : str := dotted (map fst (e_parents e)).
+
+Lemma e_dot_split' e : e_parents e <> [] -> e_dot e = parent_str e ++ c_dot :: e_name e.
+Proof.
+  intros Hr. unfold e_dot, dot_name, parent_str. rewrite dotted_app; [reflexivity| |discriminate].
+  destruct (e_parents e); [congruence|discriminate].
+Qed.
+Lemma e_dot_split e : relevant e = true -> e_dot e = parent_str e ++ c_dot :: e_name e.
+Proof. intros Hr. apply e_dot_split'. apply relevant_parents. exact Hr. Qed.
+
+Lemma nested_names_lname s x :
+  x <> [] ->
+  (mem_str x (nested_names (nested_fields s)) = true <->
+   lname (fold_left nf_step (iter_fields s false) []) x).
+Proof.
+  intros Hx. rewrite mem_nested_names. unfold nested_fields.
+  rewrite (names_lname _ x (fold_donly _ _ donly_empty)). split; [intros [H|[_ H]]; [exact H|congruence]|auto].
+Qed.
+
+(* every nested prefix is the parent path of a field whose parent is nested *)
+Theorem nested_prefix_sound s p :
+  p <> [] -> mem_str p (nested_prefix_set s) = true ->
+  exists e, In e (iter_fields s false) /\ relevant e = true /\ rsplit1_head c_dot (e_dot e) = p.
+Proof.
+  intros Hp H. unfold nested_prefix_set in H.
+  change (ev_nested_prefixes (mk_env (options s))) with (prefixes_of (nested_names (nested_fields s))) in H.
+  apply mem_prefixes in H. destruct H as [x [Hin Hx]].
+  assert (Hne : x <> []) by (intros ->; rewrite rsplit1_head_nil in Hx; congruence).
+  apply mem_str_In in Hin. apply (nested_names_lname s x Hne) in Hin.
+  apply fold_sound in Hin. destruct Hin as [Hin|[e [He [Hr Hxe]]]].
+  - apply lname_nonempty in Hin. congruence.
+  - exists e. subst x. auto.
+Qed.
+
+(* the parent path of a field whose parent is nested IS a nested prefix when no later such field lies
+   strictly below it or is a strict ancestor path of it *)
+Theorem nested_prefix_complete s E1 e E2 :
+  iter_fields s false = E1 ++ e :: E2 -> relevant e = true -> nodot (e_name e) = true ->
+  (forall e', In e' E2 -> relevant e' = true ->
+              ~ sprefix (e_dot e) (e_dot e') /\ ~ sprefix (e_dot e') (e_dot e)) ->
+  mem_str (parent_str e) (nested_prefix_set s) = true.
+Proof.
+  intros HE Hr Hn Hs. unfold nested_prefix_set.
+  change (ev_nested_prefixes (mk_env (options s))) with (prefixes_of (nested_names (nested_fields s))).
+  apply mem_prefixes. exists (e_dot e). split.
+  - apply mem_str_In. apply nested_names_lname.
+    + rewrite (e_dot_split _ Hr). destruct (parent_str e); discriminate.
+    + rewrite HE. apply fold_complete; assumption.
+  - rewrite (e_dot_split _ Hr). apply rsplit1_head_snoc. exact Hn.
+Qed.
+
+(* ================================================================ the nesting clause *)
+(* ---- executable guards on the walk *)
+Definition sprefixb (a b : str) : bool := starts_with (a ++ [c_dot]) b.
+
+Lemma starts_with_spec p : forall s, starts_with p s = true <-> exists c, s = p ++ c.
+Proof.
+  induction p as [|x p IH]; intros s.
+  - cbn. split; [intros _; exists s; reflexivity|reflexivity].
+  - destruct s as [|y s]; cbn [starts_with].
+    + split; [discriminate|intros [c H]; discriminate H].
+    + rewrite andb_true_iff, N.eqb_eq, IH. split.
+      * intros [-> [c ->]]. exists c. reflexivity.
+      * intros [c H]. injection H as -> ->. split; [reflexivity|exists c; reflexivity].
+Qed.
+
+Lemma sprefixb_spec a b : sprefixb a b = true <-> sprefix a b.
+Proof.
+  unfold sprefixb, sprefix. rewrite starts_with_spec.
+  split; intros [c ->]; exists c; rewrite <- app_assoc; reflexivity.
+Qed.
+
+(* some field with a nested parent whose parent path is pstr survives: no later field with a nested parent
+   lies strictly below it or is a strict ancestor path of it *)
+Fixpoint survives_in (E : list entry) (pstr : str) : bool :=
+  match E with
+  | [] => false
+  | e :: E2 =>
+      (relevant e && str_eqb (parent_str e) pstr && nodot (e_name e) &&
+       forallb (fun e' => negb (relevant e') ||
+                          (negb (sprefixb (e_dot e) (e_dot e')) && negb (sprefixb (e_dot e') (e_dot e)))) E2)
+      || survives_in E2 pstr
+  end.
+
+Lemma survives_in_spec E pstr :
+  survives_in E pstr = true ->
+  exists E1 e E2, E = E1 ++ e :: E2 /\ relevant e = true /\ parent_str e = pstr /\ nodot (e_name e) = true /\
+    forall e', In e' E2 -> relevant e' = true ->
+               ~ sprefix (e_dot e) (e_dot e') /\ ~ sprefix (e_dot e') (e_dot e).
+Proof.
+  induction E as [|e E2 IH]; [discriminate|]. cbn [survives_in]. intros H. apply orb_true_iff in H.
+  destruct H as [H|H].
+  - repeat (apply andb_true_iff in H; destruct H as [H ?]).
+    exists [], e, E2. split; [reflexivity|]. split; [assumption|]. split; [apply str_eqb_eq; assumption|].
+    split; [assumption|]. intros e' Hin Hr. rewrite forallb_forall in H0. specialize (H0 e' Hin).
+    rewrite Hr in H0. cbn [negb orb] in H0. apply andb_true_iff in H0. destruct H0 as [A B].
+    apply negb_true_iff in A, B. split; intros Hs; apply sprefixb_spec in Hs; congruence.
+  - destruct (IH H) as [E1 [e0 [E3 [-> R]]]]. exists (e :: E1), e0, E3. split; [reflexivity|exact R].
+Qed.
+
+(* the type found along a chain of (name, type) when following a list of names *)
+Fixpoint last_type_along (ns : list str) (chain : list (str * option str)) : option (option str) :=
+  match ns, chain with
+  | [n], (n', ty) :: _ => if str_eqb n n' then Some ty else None
+  | n :: ns', (n', _) :: chain' => if str_eqb n n' then last_type_along ns' chain' else None
+  | _, _ => None
+  end.
+
+Definition chain_of (e : entry) : list (str * option str) :=
+  map (fun p => (fst p, fd_type (snd p))) (e_parents e) ++ [(e_name e, fd_type (e_def e))].
+
+(* sanity of the walk (true for every well-formed description; checked by computation, see the harness):
+   the names on the path of a field whose parent is nested / has the explicit type object are dot-free, and
+   wherever the parent path of such a field is an initial part of the path of a walked field, the type found
+   there is nested / object *)
+Definition obj_parent (e : entry) : bool := type_is (parent_type (e_parents e)) k_object.
+Definition sane_for (K : str) (s : schema) (e : entry) : bool :=
+  nodot (e_name e) && forallb nodot (map fst (e_parents e)) &&
+  forallb (fun e2 => match last_type_along (map fst (e_parents e)) (chain_of e2) with
+                     | Some ty => type_is ty K
+                     | None => true
+                     end) (iter_fields s true).
+Definition walk_sane (s : schema) : bool :=
+  forallb (fun e => (negb (relevant e) || sane_for k_nested s e) &&
+                    (negb (obj_parent e) || sane_for k_object s e))
+          (iter_fields s false).
+
+Definition anchor_survives (s : schema) (anc : list (str * fdef)) : bool :=
+  match innermost_nested_ancestor anc with
+  | None => true
+  | Some pstr => survives_in (iter_fields s false) pstr
+  end.
+
+(* ---- try_prefixes *)
+Lemma try_prefixes_none np comps k :
+  (forall j, 1 <= j <= k -> mem_str (dotted (firstn j comps)) np = false) ->
+  try_prefixes np [] comps k = None.
+Proof.
+  induction k as [|k IH]; intros H; [reflexivity|]. cbn [try_prefixes app].
+  rewrite (H (S k)) by lia. apply IH. intros j Hj. apply H. lia.
+Qed.
+
+Lemma try_prefixes_some np comps k j :
+  1 <= j <= k -> mem_str (dotted (firstn j comps)) np = true ->
+  (forall j', j < j' <= k -> mem_str (dotted (firstn j' comps)) np = false) ->
+  try_prefixes np [] comps k = Some (dotted (firstn j comps)).
+Proof.
+  induction k as [|k IH]; intros Hj Hm Hn; [lia|]. cbn [try_prefixes app].
+  destruct (Nat.eq_dec j (S k)) as [->|Hne].
+  - rewrite Hm. reflexivity.
+  - rewrite (Hn (S k)) by lia. apply IH; [lia|exact Hm|]. intros j' Hj'. apply Hn. lia.
+Qed.
+
+(* ---- innermost nested ancestor *)
+Definition nonnested (a : str * fdef) : Prop := type_is (fd_type (snd a)) k_nested = false.
+
+Lemma innermost_from_none anc : forall pre acc, Forall nonnested anc -> innermost_from pre anc acc = acc.
+Proof.
+  induction anc as [|[n d] anc IH]; intros pre acc H; [reflexivity|]. inversion H as [|? ? Hd Ht]; subst.
+  cbn [innermost_from]. unfold nonnested in Hd. cbn [snd] in Hd. rewrite Hd. apply IH. exact Ht.
+Qed.
+
+Lemma innermost_from_split a1 : forall pre acc n d a2,
+  type_is (fd_type d) k_nested = true -> Forall nonnested a2 ->
+  innermost_from pre (a1 ++ (n, d) :: a2) acc = Some (dotted (pre ++ map fst a1 ++ [n])).
+Proof.
+  induction a1 as [|[n0 d0] a1 IH]; intros pre acc n d a2 Hd H2.
+  - cbn [app innermost_from map]. rewrite Hd. apply innermost_from_none. exact H2.
+  - cbn [app innermost_from map fst]. rewrite IH by assumption. rewrite <- app_assoc. reflexivity.
+Qed.
+
+Lemma last_nested_split anc :
+  Forall nonnested anc \/
+  exists a1 n d a2, anc = a1 ++ (n, d) :: a2 /\ type_is (fd_type d) k_nested = true /\ Forall nonnested a2.
+Proof.
+  induction anc as [|[n d] anc IH]; [left; constructor|].
+  destruct IH as [H|[a1 [n' [d' [a2 [-> [Hd H2]]]]]]].
+  - destruct (type_is (fd_type d) k_nested) eqn:E.
+    + right. exists [], n, d, anc. auto.
+    + left. constructor; assumption.
+  - right. exists ((n, d) :: a1), n', d', a2. auto.
+Qed.
+
+(* ---- chains *)
+Lemma lta_split c1 : forall n ty c2,
+  last_type_along (map fst c1 ++ [n]) (c1 ++ (n, ty) :: c2) = Some ty.
+Proof.
+  induction c1 as [|[n0 t0] c1 IH]; intros n ty c2.
+  - cbn. rewrite str_eqb_refl. reflexivity.
+  - cbn [map fst app last_type_along]. rewrite str_eqb_refl.
+    destruct (map fst c1 ++ [n]) eqn:E; [destruct (map fst c1); discriminate|]. rewrite <- E. apply IH.
+Qed.
+
+Lemma split_at {A} (l : list A) j :
+  1 <= j <= length l -> exists c1 x c2, l = c1 ++ x :: c2 /\ length c1 = j - 1.
+Proof.
+  revert j. induction l as [|a l IH]; intros j Hj; [cbn in Hj; lia|].
+  destruct (Nat.eq_dec j 1) as [->|Hne].
+  - exists [], a, l. auto.
+  - destruct (IH (j - 1)) as [c1 [x [c2 [-> Hl]]]]; [cbn in Hj; lia|].
+    exists (a :: c1), x, c2. split; [reflexivity|]. cbn. lia.
+Qed.
+
+Lemma in_tail_part {A} (p : list A) : forall q c1 x c2,
+  p ++ q = c1 ++ x :: c2 -> length p <= length c1 -> In x q.
+Proof.
+  induction p as [|a p IH]; intros q c1 x c2 H Hl.
+  - cbn in H. subst q. apply in_elt.
+  - destruct c1 as [|a' c1]; [cbn in Hl; lia|]. injection H as _ H. eapply IH; [exact H|cbn in Hl; lia].
+Qed.
+
+Lemma firstn_split {A B} (f : A -> B) (c1 : list A) x c2 :
+  firstn (S (length c1)) (map f (c1 ++ x :: c2)) = map f c1 ++ [f x].
+Proof.
+  induction c1 as [|a c1 IH]; [reflexivity|]. cbn [length app map firstn]. f_equal. exact IH.
+Qed.
+
+Lemma dotted_nonempty c cs : c <> [] -> dotted (c :: cs) <> [].
+Proof.
+  intros Hc. destruct cs; [exact Hc|]. rewrite dotted_cons by discriminate. destruct c; [congruence|discriminate].
+Qed.
+
+Lemma dotted_inj a b :
+  a <> [] -> b <> [] -> forallb nodot a = true -> forallb nodot b = true -> dotted a = dotted b -> a = b.
+Proof.
+  intros Ha Hb Da Db H. rewrite <- (split_dotted a Ha Da), <- (split_dotted b Hb Db), H. reflexivity.
+Qed.
+
+Lemma forallb_firstn {A} (f : A -> bool) l j : forallb f l = true -> forallb f (firstn j l) = true.
+Proof.
+  revert j. induction l as [|a l IH]; intros j H; [destruct j; reflexivity|].
+  destruct j; [reflexivity|]. cbn [firstn forallb] in *. apply andb_true_iff in H. destruct H as [H1 H2].
+  rewrite H1. apply IH. exact H2.
+Qed.
+
+Definition ntype (p : str * fdef) : str * option str := (fst p, fd_type (snd p)).
+
+Lemma merge_type p sd ty : fd_type sd = Some ty -> fd_type (merge_def p sd) = Some ty.
+Proof. destruct p, sd. cbn. intros ->. reflexivity. Qed.
+
+Lemma leaf_type d : is_leaf_def d = true -> exists ty, fd_type d = Some ty /\ type_is (Some ty) k_nested = false.
+Proof.
+  intros H. pose proof (leaf_not_container _ H) as Hc. unfold is_leaf_def in H.
+  apply andb_true_iff in H. destruct H as [H _]. apply andb_true_iff in H. destruct H as [H _].
+  destruct (fd_type d) as [ty|] eqn:E; [|discriminate]. exists ty. split; [reflexivity|].
+  unfold is_container_type in Hc. rewrite E in Hc. apply orb_false_iff in Hc. apply Hc.
+Qed.
+
+Lemma tail_not_nested a2 last ty0 n ty :
+  Forall nonnested a2 -> type_is (Some ty0) k_nested = false ->
+  In (n, ty) (map ntype a2 ++ [(last, Some ty0)]) -> type_is ty k_nested = true -> False.
+Proof.
+  intros H2 Hl Hin Hty. apply in_app_or in Hin. destruct Hin as [Hin|[Heq|[]]].
+  - apply in_map_iff in Hin. destruct Hin as [a [Heq Ha]]. rewrite Forall_forall in H2. specialize (H2 a Ha).
+    unfold ntype in Heq. inversion Heq; subst. unfold nonnested in H2. congruence.
+  - inversion Heq; subst. congruence.
+Qed.
+
+(* a parent path that is an initial part of the path of a walked field sits on an ancestor of that type *)
+Lemma prefix_type K s e e2 comps j :
+  In e (iter_fields s false) -> e_parents e <> [] -> sane_for K s e = true ->
+  In e2 (iter_fields s true) -> map fst (chain_of e2) = comps ->
+  forallb nodot comps = true -> 1 <= j <= length comps ->
+  rsplit1_head c_dot (e_dot e) = dotted (firstn j comps) ->
+  exists c1 n ty c2, chain_of e2 = c1 ++ (n, ty) :: c2 /\ length c1 = j - 1 /\ type_is ty K = true.
+Proof.
+  intros Hin Hpar Hsane He2 Hc Hd Hj Hh.
+  assert (Hlen : length (chain_of e2) = length comps) by (rewrite <- Hc; symmetry; apply map_length).
+  destruct (split_at (chain_of e2) j) as [c1 [[n ty] [c2 [Hsp Hl]]]]; [lia|].
+  assert (Hfirst : firstn j comps = map fst c1 ++ [n]).
+  { rewrite <- Hc, Hsp. replace j with (S (length c1)) by lia. apply (firstn_split fst c1 (n, ty) c2). }
+  unfold sane_for in Hsane.
+  apply andb_true_iff in Hsane. destruct Hsane as [Hs1 Hs3]. apply andb_true_iff in Hs1. destruct Hs1 as [Hs1 Hs2].
+  rewrite forallb_forall in Hs3. specialize (Hs3 e2 He2).
+  rewrite (e_dot_split' _ Hpar), (rsplit1_head_snoc _ _ Hs1) in Hh. unfold parent_str in Hh.
+  assert (Hnames : map fst (e_parents e) = firstn j comps).
+  { apply dotted_inj; [|rewrite Hfirst; destruct (map fst c1); discriminate|exact Hs2|
+                       apply forallb_firstn; exact Hd|exact Hh].
+    destruct (e_parents e); [congruence|discriminate]. }
+  rewrite Hnames, Hfirst, Hsp, lta_split in Hs3.
+  exists c1, n, ty, c2. auto.
+Qed.
+
+Lemma firstn_dotted_nonempty comps j :
+  forallb nonempty_name comps = true -> 1 <= j <= length comps -> dotted (firstn j comps) <> [].
+Proof.
+  intros Hne Hj. destruct comps as [|c cs]; [cbn in Hj; lia|]. destruct j; [lia|]. cbn [firstn].
+  apply dotted_nonempty. cbn in Hne. apply andb_true_iff in Hne. destruct Hne as [Hc _].
+  destruct c; [discriminate|discriminate].
+Qed.
+
+Lemma walk_sane_at s e :
+  walk_sane s = true -> In e (iter_fields s false) ->
+  (relevant e = true -> sane_for k_nested s e = true) /\ (obj_parent e = true -> sane_for k_object s e = true).
+Proof.
+  unfold walk_sane. rewrite forallb_forall. intros H Hin. specialize (H e Hin).
+  apply andb_true_iff in H. destruct H as [H1 H2].
+  split; intros Hr; [rewrite Hr in H1; exact H1|rewrite Hr in H2; exact H2].
+Qed.
+
+(* a nested prefix that is an initial part of the path of a walked field sits on a nested ancestor *)
+Lemma prefix_is_nested s e2 comps j :
+  walk_sane s = true -> In e2 (iter_fields s true) -> map fst (chain_of e2) = comps ->
+  forallb nodot comps = true -> forallb nonempty_name comps = true ->
+  1 <= j <= length comps ->
+  mem_str (dotted (firstn j comps)) (nested_prefix_set s) = true ->
+  exists c1 n ty c2, chain_of e2 = c1 ++ (n, ty) :: c2 /\ length c1 = j - 1 /\ type_is ty k_nested = true.
+Proof.
+  intros Hsane He2 Hc Hd Hne Hj Hm.
+  destruct (nested_prefix_sound s _ (firstn_dotted_nonempty _ _ Hne Hj) Hm) as [e [Hin [Hr Hh]]].
+  destruct (walk_sane_at s e Hsane Hin) as [Hs _].
+  eapply prefix_type; try eassumption; [apply relevant_parents; exact Hr|apply Hs; exact Hr].
+Qed.
+
+Theorem nested_anchor_resolved s comps d anc :
+  wf_schema s = true -> mapped_leaf s comps d anc ->
+  forallb nodot comps = true -> forallb nonempty_name comps = true ->
+  walk_sane s = true -> anchor_survives s anc = true ->
+  nested_anchor s comps = innermost_nested_ancestor anc.
+Proof.
+  intros Hwf [props [Hin [Hr Hl]]] Hd Hne Hsane Hg.
+  destruct (resolve_walk _ _ _ _ _ (wf_schema_props _ _ Hwf Hin) Hr) as [Hn Hw]. cbn [map app] in Hn.
+  destruct (leaf_type _ Hl) as [ty0 [Hty0 Hnn]].
+  assert (He2 : exists e2, In e2 (iter_fields s true) /\
+                           chain_of e2 = map ntype anc ++ [(last_name comps, Some ty0)]).
+  { assert (Hiter : forall e, In e (walk_properties true [] props) -> In e (iter_fields s true)).
+    { intros e He. unfold iter_fields. apply in_flat_map. exists props. split; assumption. }
+    destruct Hw as [Hw|[anc0 [c [p [Ha [Hp Hw]]]]]].
+    - eexists. split; [apply Hiter; exact Hw|]. unfold chain_of, e_parents, e_name, e_def. cbn [fst snd].
+      rewrite Hty0. reflexivity.
+    - eexists. split; [apply Hiter; exact Hw|]. unfold chain_of, e_parents, e_name, e_def. cbn [fst snd].
+      rewrite (merge_type _ _ _ Hty0). reflexivity. }
+  destruct He2 as [e2 [He2 Hchain]].
+  assert (Hc : map fst (chain_of e2) = comps).
+  { rewrite Hchain, map_app, map_map. cbn [map fst ntype]. exact Hn. }
+  assert (Hlen : length comps = S (length anc)).
+  { rewrite <- Hn, app_length, map_length. cbn. lia. }
+  unfold nested_anchor. fold (nested_prefix_set s). unfold innermost_nested_ancestor.
+  destruct (last_nested_split anc) as [Hnone|[a1 [n0 [d0 [a2 [Hsplit [Hd0 H2]]]]]]].
+  - rewrite (innermost_from_none _ _ _ Hnone). apply try_prefixes_none. intros j Hj.
+    destruct (mem_str _ (nested_prefix_set s)) eqn:Hm; [|reflexivity]. exfalso.
+    destruct (prefix_is_nested s e2 comps j Hsane He2 Hc Hd Hne Hj Hm) as [c1 [n [ty [c2 [Hsp [_ Hty]]]]]].
+    rewrite Hchain in Hsp.
+    eapply (tail_not_nested anc _ ty0 n ty Hnone Hnn); [|exact Hty].
+    eapply (in_tail_part [] _ c1 (n, ty) c2); [exact Hsp|cbn; lia].
+  - assert (Hi : innermost_from [] anc None = Some (dotted (map fst a1 ++ [n0]))).
+    { rewrite Hsplit. apply (innermost_from_split a1 [] None n0 d0 a2 Hd0 H2). }
+    rewrite Hi.
+    assert (Hfirst : firstn (S (length a1)) comps = map fst a1 ++ [n0]).
+    { rewrite <- Hn, Hsplit, firstn_app, map_length, app_length. cbn [length].
+      replace (S (length a1) - (length a1 + S (length a2))) with 0 by lia. cbn [firstn]. rewrite app_nil_r.
+      apply (firstn_split fst a1 (n0, d0) a2). }
+    rewrite <- Hfirst. apply try_prefixes_some.
+    + rewrite Hlen, Hsplit, app_length. cbn [length]. lia.
+    + rewrite Hfirst. unfold anchor_survives, innermost_nested_ancestor in Hg. rewrite Hi in Hg.
+      destruct (survives_in_spec _ _ Hg) as [E1 [e [E2 [HE [Hr' [Hp [Hnd Hs]]]]]]].
+      rewrite <- Hp. eapply nested_prefix_complete; eassumption.
+    + intros j' Hj'. destruct (mem_str _ (nested_prefix_set s)) eqn:Hm; [|reflexivity]. exfalso.
+      destruct (prefix_is_nested s e2 comps j' Hsane He2 Hc Hd Hne ltac:(lia) Hm)
+        as [c1 [n [ty [c2 [Hsp [Hl1 Hty]]]]]].
+      rewrite Hchain, Hsplit in Hsp.
+      assert (Hre : map ntype (a1 ++ (n0, d0) :: a2) ++ [(last_name comps, Some ty0)] =
+                    (map ntype a1 ++ [ntype (n0, d0)]) ++ (map ntype a2 ++ [(last_name comps, Some ty0)])).
+      { rewrite map_app. cbn [map]. rewrite <- !app_assoc. reflexivity. }
+      rewrite Hre in Hsp.
+      eapply (tail_not_nested a2 _ ty0 n ty H2 Hnn); [|exact Hty].
+      eapply in_tail_part; [exact Hsp|]. rewrite app_length, map_length. cbn [length]. lia.
+Qed.
+
+(* ================================================================ the object prefixes; no refusal *)
+Lemma obj_parent_parents e : obj_parent e = true -> e_parents e <> [].
+Proof. unfold obj_parent, parent_type. destruct (e_parents e); [discriminate|discriminate]. Qed.
+
+Lemma object_prefix_sound s p :
+  mem_str p (ce_object_prefixes (ev_chk (mk_env (options s)))) = true ->
+  exists e, In e (iter_fields s false) /\ obj_parent e = true /\ rsplit1_head c_dot (e_dot e) = p.
+Proof.
+  intros H.
+  assert (Hno : c_object (options s) <> SNone) by discriminate.
+  destruct (env_object (options s) Hno) as [_ [_ Hpre]]. rewrite Hpre in H.
+  change (object_names (c_object (options s))) with (dedup (object_fields s)) in H.
+  rewrite !prefixes_dedup in H. apply mem_prefixes in H. destruct H as [x [Hin Hx]].
+  apply mem_str_In in Hin. apply object_fields_spec in Hin. destruct Hin as [e [He [Hd [Ho _]]]].
+  exists e. subst x. auto.
+Qed.
+
+Theorem never_refused s comps d anc :
+  wf_schema s = true -> mapped_leaf s comps d anc ->
+  forallb nodot comps = true -> forallb nonempty_name comps = true -> walk_sane s = true ->
+  refused s comps = false.
+Proof.
+  intros Hwf [props [Hin [Hr Hl]]] Hd Hne Hsane.
+  destruct (resolve_walk _ _ _ _ _ (wf_schema_props _ _ Hwf Hin) Hr) as [Hn Hw]. cbn [map app] in Hn.
+  destruct (leaf_type _ Hl) as [ty0 [Hty0 Hnn]].
+  assert (Hno : type_is (Some ty0) k_object = false).
+  { pose proof (leaf_not_container _ Hl) as Hc. unfold is_container_type in Hc. rewrite Hty0 in Hc.
+    apply orb_false_iff in Hc. apply Hc. }
+  assert (He2 : exists e2, In e2 (iter_fields s true) /\
+                           chain_of e2 = map ntype anc ++ [(last_name comps, Some ty0)]).
+  { assert (Hiter : forall e, In e (walk_properties true [] props) -> In e (iter_fields s true)).
+    { intros e He. unfold iter_fields. apply in_flat_map. exists props. split; assumption. }
+    destruct Hw as [Hw|[anc0 [c [p [Ha [Hp Hw]]]]]].
+    - eexists. split; [apply Hiter; exact Hw|]. unfold chain_of, e_parents, e_name, e_def. cbn [fst snd].
+      rewrite Hty0. reflexivity.
+    - eexists. split; [apply Hiter; exact Hw|]. unfold chain_of, e_parents, e_name, e_def. cbn [fst snd].
+      rewrite (merge_type _ _ _ Hty0). reflexivity. }
+  destruct He2 as [e2 [He2 Hchain]].
+  assert (Hc : map fst (chain_of e2) = comps).
+  { rewrite Hchain, map_app, map_map. cbn [map fst ntype]. exact Hn. }
+  assert (Hlen : length comps = S (length anc)).
+  { rewrite <- Hn, app_length, map_length. cbn. lia. }
+  assert (Hfull : firstn (length comps) comps = comps) by apply firstn_all.
+  (* the element of the chain at the last position is the leaf itself *)
+  assert (Hlast : forall K c1 n ty c2,
+             chain_of e2 = c1 ++ (n, ty) :: c2 -> length c1 = length comps - 1 -> type_is ty K = true ->
+             type_is (Some ty0) K = true).
+  { intros K c1 n ty c2 Hsp Hl1 Hty. rewrite Hchain in Hsp.
+    assert (Hin' : In (n, ty) [(last_name comps, Some ty0)]).
+    { eapply in_tail_part; [exact Hsp|]. rewrite map_length. lia. }
+    destruct Hin' as [Heq|[]]. inversion Heq; subst. exact Hty. }
+  unfold refused. apply orb_false_iff. split.
+  - destruct (mem_str _ _) eqn:Hm; [|reflexivity]. exfalso.
+    change (ce_nested_prefixes (ev_chk (mk_env (options s)))) with (nested_prefix_set s) in Hm.
+    rewrite <- Hfull in Hm.
+    destruct (prefix_is_nested s e2 comps (length comps) Hsane He2 Hc Hd Hne ltac:(lia) Hm)
+      as [c1 [n [ty [c2 [Hsp [Hl1 Hty]]]]]].
+    pose proof (Hlast _ _ _ _ _ Hsp Hl1 Hty). congruence.
+  - destruct (mem_str _ _) eqn:Hm; [|reflexivity]. exfalso.
+    apply object_prefix_sound in Hm. destruct Hm as [e [Hine [Ho Hh]]].
+    destruct (walk_sane_at s e Hsane Hine) as [_ Hs]. rewrite <- Hfull in Hh.
+    destruct (prefix_type k_object s e e2 comps (length comps) Hine (obj_parent_parents _ Ho) (Hs Ho) He2 Hc Hd
+                          ltac:(lia) Hh) as [c1 [n [ty [c2 [Hsp [Hl1 Hty]]]]]].
+    pose proof (Hlast _ _ _ _ _ Hsp Hl1 Hty). congruence.
+Qed.
+
+Lemma typing_mem s comps d anc :
+  wf_schema s = true -> coherent s = true -> mapped_leaf s comps d anc -> subfield_ok anc d = true ->
+  mem_str (dotted comps) (not_analyzed_fields s) = negb (analysed_text d).
+Proof.
+  intros Hwf Hc [props [Hin [Hr Hl]]] Hg.
+  destruct (resolve_walk _ _ _ _ _ (wf_schema_props _ _ Hwf Hin) Hr) as [Hn Hw]. cbn [map app] in Hn.
+  assert (Hiter : forall e, In e (walk_properties true [] props) -> In e (iter_fields s true)).
+  { intros e He. unfold iter_fields. apply in_flat_map. exists props. split; assumption. }
+  destruct Hw as [Hw|[anc0 [c [p [Ha [Hp Hw]]]]]].
+  - pose proof (not_analyzed_iff s _ Hc (Hiter _ Hw)) as Hna.
+    unfold e_dot, e_name, e_parents, e_def, dot_name in Hna. cbn [fst snd] in Hna.
+    rewrite Hn in Hna. rewrite Hna. apply leaf_not_analyzed. apply leaf_not_container. exact Hl.
+  - pose proof (not_analyzed_iff s _ Hc (Hiter _ Hw)) as Hna.
+    unfold e_dot, e_name, e_parents, e_def, dot_name in Hna. cbn [fst snd] in Hna.
+    rewrite Hn in Hna. rewrite Hna.
+    assert (Hg' : sub_self_described p d = true).
+    { unfold subfield_ok, subfield_holder in Hg. rewrite Ha, rev_unit, Hp in Hg. exact Hg. }
+    rewrite (merge_not_analyzed _ _ Hg'). apply leaf_not_analyzed. apply leaf_not_container. exact Hl.
+Qed.
+
+(* the property, under the executable guards: both spellings give exactly the expected JSON *)
+Theorem query_resolved s comps d anc x t :
+  wf_schema s = true -> coherent s = true -> walk_sane s = true ->
+  mapped_leaf s comps d anc -> subfield_ok anc d = true -> anchor_survives s anc = true ->
+  forallb nodot comps = true -> forallb nonempty_name comps = true ->
+  has_wildcard x = false -> spelling comps x t ->
+  build (options s) t = ROk (expected_json comps d anc x).
+Proof.
+  intros Hwf Hc Hsane Hm Hsub Hanc Hd Hne Hx Hsp.
+  assert (Hcs : comps <> []) by (destruct Hm as [props [_ [Hr _]]]; destruct comps; [discriminate Hr|discriminate]).
+  rewrite (build_options s comps x t Hcs Hd Hx Hsp).
+  rewrite (never_refused s comps d anc Hwf Hm Hd Hne Hsane).
+  rewrite (nested_anchor_resolved s comps d anc Hwf Hm Hd Hne Hsane Hanc).
+  rewrite (typing_mem s comps d anc Hwf Hc Hm Hsub). reflexivity.
 Qed.
